@@ -120,7 +120,8 @@ class DisambiguateChoices(RelativeHandlerInterface):
             for tp in choice.types:
                 dt = tp.datatype
                 if dt:
-                    groups[dt.type.__name__].append(index)
+                    # The python type, a user type may be named str or bytes
+                    groups[dt.type].append(index)
                 else:
                     groups[tp.qname].append(index)
 
